@@ -424,6 +424,7 @@ def loop_transition_table(prog, b, h, blocks, eat_bb):
     """For a loop `match stream.eat() {...}` with an integer counter: token kind -> set of
     (guard on the counter, counter effect, continue|exit|exit-error)."""
     tk = {v["discr"]: v["name"] for v in prog.adts[TOKENKIND]["variants"]}
+    rk = {n: d for d, n in tk.items()}
     # find the counter: a local with Add/SubWithOverflow by const 1 inside the loop
     counters = set()
     for i in blocks:
@@ -486,8 +487,11 @@ def loop_transition_table(prog, b, h, blocks, eat_bb):
                     g = counter_guard(b, x)
                     if g is None:
                         sc = paths.switch_cond(b, prog, x)
-                        if sc.kind == "bool-const":
-                            pass
+                        if sc.kind == "discr" and sc.data[1] == TOKENKIND:
+                            # a test of the token just eaten (the one `match`, or one link of an `if kind == ..` chain)
+                            arms = dict((a[0], a[1]) for a in t["arms"])
+                            x = arms.get(rk.get(kind), t["else"]) if kind is not None else t["else"]
+                            continue
                         # a switch that is not a counter test (drop flags etc.): follow the unique in-loop edge if any
                         nxt = b.succ(x)
                         x = nxt[0]
@@ -511,11 +515,16 @@ def loop_transition_table(prog, b, h, blocks, eat_bb):
         return out
 
     named = set()
-    for val, tgt in st["arms"]:
-        k = tk.get(val)
-        named.add(k)
-        table.setdefault(k, set()).update(walk(tgt, k))
-    table["<other>"] = walk(st["else"], None)
+    for x in blocks:
+        tx = b.term(x)
+        if tx["k"] == "switch":
+            sc = paths.switch_cond(b, prog, x)
+            if sc.kind == "discr" and sc.data[1] == TOKENKIND:
+                named.update(tk.get(val) for val, _ in tx["arms"])
+    named.discard(None)
+    for k in sorted(named):
+        table.setdefault(k, set()).update(walk(sw, k))
+    table["<other>"] = walk(sw, None)
     # normalise: for kinds whose arms fall through guards into the default arm, "other" outcomes remain
     norm = {}
     for k, outs in table.items():
